@@ -132,8 +132,8 @@ def reloadUntyped (env : Env) (fuel : Nat) (s : St) (key : Key) : St × ReloadOu
       if c.dyn then
         -- `UntypedEntry::write`: swap under the write lock, `reload.increment()`, `reload_global = true`
         let c' := match s1.lookup key with | some c' => c' | none => c
-        (s1.setCell key { c' with val := v, rid := (AtomicReloadId_increment c'.rid).2, flag := true }, .done (some (deps, true)))
-      else (s1, .died)   -- `wrong_handle_type()` panics on the reloader thread
+        ((s1.setCell key { c' with val := v, rid := (AtomicReloadId_increment c'.rid).2, flag := true }).swapValue key.ty c'.addr, .done (some (deps, true)))
+      else (s1.handOut key.ty, .died)   -- `wrong_handle_type()` panics on the reloader thread
     | .err _ => (s1, .done (if failedReloadKeepsNewDeps then some (deps, false) else none))
     | .panicked => if reloadCatchesPanic then (s1, .done none) else (s1, .died)
     | .diverged => (s1, .died)
